@@ -31,8 +31,17 @@ TREE_FILES = {
     'root/../other/secret.txt': DECOY,
     'other/a.txt': DECOY,
     'work/a.txt': DECOY,
+    # a second tree of the same shape: the same relative root strings mean other directories from here
+    'alt/secret_above.txt': b'ALT above',
+    'alt/root/index.html': b'ALT index',
+    'alt/root/a.txt': b'ALT inside a',
+    'alt/root/sub/b.txt': b'ALT inside sub b',
+    'alt/root/sub/deep/c.txt': b'ALT inside deep c',
+    'alt/root2/secret.txt': b'ALT root2 secret',
+    'alt/root2/a.txt': b'ALT root2 a',
+    'alt/work/a.txt': b'ALT work a',
 }
-TREE_DIRS = ['root/dir.d', 'root/sub/empty', 'work/nested']
+TREE_DIRS = ['root/dir.d', 'root/sub/empty', 'work/nested', 'alt/work/nested', 'alt/root/sub/empty']
 
 # (cwd relative to {T}, root spelling); '{T}' is replaced by the absolute top directory
 ROOTS = [
@@ -43,6 +52,8 @@ ROOTS = [
     ('work', '../root'), ('work/nested', '../../root/'), ('root2', '../root'),
     # other roots, so that "root" is itself a sibling / a parent / missing
     ('', '{T}/root2'), ('', 'root2/'), ('', '{T}/root/sub'), ('root', 'sub'), ('', '{T}'), ('', '{T}/'),
+    ('alt', 'root'), ('alt', 'root/'), ('alt/root', '.'), ('alt/root/sub', '..'), ('alt/work', '../root'), ('alt', '../root'),
+    ('alt', '{T}/root'), ('', '{T}/alt/root'),
     ('', '{T}/missing'), ('', 'missing/'), ('', '/'), ('', '//'), ('', '{T}/root/a.txt'), ('root', 'a.txt/'),
 ]
 
@@ -102,6 +113,58 @@ def gen_path(rng):
     if k == 1:
         s = rng.choice(['/', '//', '///', '////']) + s
     return s
+
+
+# ---- call SEQUENCES on one process: whatever static_file (or anything below it) remembers between calls must
+# not change an answer.  Families built to collide: the same (root string, name) under different working
+# directories; the same name under different roots (sub-root, sibling, the second tree); the same resolved file
+# reached through different roots (inside for one, outside for another).
+SAME_ROOT_STRING = [
+    ('root', ['', 'alt']), ('root/', ['', 'alt']), ('./root', ['', 'alt']),
+    ('.', ['root', 'alt/root', 'root2', 'root/sub', 'alt/root2']), ('', ['root', 'alt/root', 'root2']),
+    ('..', ['root/sub', 'alt/root/sub', 'root/sub/deep', 'root/dir.d']),
+    ('../root', ['work', 'alt/work', 'root2', 'alt', 'alt/root2']), ('sub', ['root', 'alt/root']),
+    ('../root2', ['root', 'alt/root', 'work']), ('../..', ['root/sub/deep', 'alt/root/sub/deep', 'work/nested']),
+]
+SEQ_NAMES = ['a.txt', 'index.html', 'sub/b.txt', 'b.txt', 'secret.txt', 'deep/c.txt', '../a.txt', '../sub/b.txt',
+             '../root2/secret.txt', '../root2/a.txt', '../secret_above.txt', '../root/a.txt', 'root/a.txt', 'root2/secret.txt',
+             'sub/../a.txt', '../b.txt', 'missing.txt', 'noaccess.txt']
+SEQ_ROOTS = ['{T}/root', '{T}/root/', '{T}/root/sub', '{T}/root/sub/deep', '{T}/root2', '{T}/rootx', '{T}/alt/root', '{T}/alt/root2',
+             '{T}/alt', '{T}', '{T}/root/root2', '{T}/work']
+
+
+def gen_sequence(rng):
+    """a list of calls (cwd_rel, root, filename, method, ims)"""
+    k = rng.randrange(4)
+    meth = lambda: rng.choice(['GET', 'GET', 'GET', 'HEAD'])
+    if k == 0:      # one root STRING, one name, the working directory changes between the calls
+        root, cwds = rng.choice(SAME_ROOT_STRING)
+        if rng.random() < .7:        # a spelling of the same root that no earlier sequence has used
+            root = '{N}/../' + root
+        fn = rng.choice(SEQ_NAMES)
+        order = [rng.choice(cwds) for _ in range(rng.randint(2, 5))]
+        if len(set(order)) == 1:
+            order.append(rng.choice([c for c in cwds if c != order[0]]))
+        return [(c, root, fn, meth(), False) for c in order]
+    if k == 1:      # one name, several roots (warm with one root, ask through another)
+        fn = rng.choice(SEQ_NAMES)
+        return [('', rng.choice(SEQ_ROOTS), fn, meth(), False) for _ in range(rng.randint(2, 5))]
+    if k == 2:      # one file, reached through roots for which it is inside / outside
+        reach = rng.choice([
+            [('{T}/root', 'sub/b.txt'), ('{T}/root/sub', 'b.txt'), ('{T}/root/sub/deep', '../b.txt'), ('{T}/root2', '../root/sub/b.txt'),
+             ('{T}', 'root/sub/b.txt'), ('{T}/alt/root', '../../root/sub/b.txt'), ('{T}/root/sub/empty', '../b.txt')],
+            [('{T}/root', 'a.txt'), ('{T}/root/sub', '../a.txt'), ('{T}/root2', '../root/a.txt'), ('{T}', 'root/a.txt'),
+             ('{T}/root/root2', '../a.txt'), ('{T}/rootx', '../root/a.txt')],
+            [('{T}/root2', 'secret.txt'), ('{T}/root', '../root2/secret.txt'), ('{T}', 'root2/secret.txt'),
+             ('{T}/root/root2', '../../root2/secret.txt'), ('{T}/alt/root2', '../../root2/secret.txt')],
+        ])
+        return [('',) + rng.choice(reach) + (meth(), False) for _ in range(rng.randint(2, 5))]
+    # anything after anything
+    out = []
+    for _ in range(rng.randint(2, 4)):
+        c, r = rng.choice(ROOTS)
+        out.append((c, r, rng.choice(SEQ_NAMES + NAMED[:20]), meth(), rng.random() < .15))
+    return out
 
 
 class _PathProxy:
@@ -176,9 +239,10 @@ class C16(Check):
     rule = ('os.path.normpath/join/abspath/strip against the model on generated paths and exhaustively over the '
             'alphabet {a . /} (length <= 9 quick / 10 thorough) and over segment lists from {a . .. ""} with 0-3 '
             'leading slashes; static_file on a real temporary tree (decoys above and beside the root, siblings root2 '
-            'rootx root.bak) for 34 root spellings (absolute/relative, trailing separators, dot segments, other '
+            'rootx root.bak) for 42 root spellings (absolute/relative, trailing separators, dot segments, other '
             'working directories) x file names built from names, ".", "..", "", sibling names, absolute prefixes and '
-            'separators / \\ repeated; GET/HEAD, If-Modified-Since; compared: status, every path handed to open(), '
+            'separators / \\ repeated; GET/HEAD, If-Modified-Since; call SEQUENCES on one process (same root string under '
+            'other working directories, same name under sub-/sibling roots, same file through several roots); compared: status, every path handed to open(), '
             'the path probed; non-trivial = the name contains "..", a backslash or starts with a separator')
     assumptions = ['os.getcwd() returns an absolute path (hypothesis of the containment theorem)',
                    'os.path.exists/isfile, os.access, os.stat and open are the file system: parameters of the model; the '
@@ -198,7 +262,10 @@ class C16(Check):
     def _setup(self):
         from ombott import static_stream
         self.ss = static_stream
-        self.top = os.path.realpath(tempfile.mkdtemp(prefix='c16_', dir=os.environ.get('VERIF_TMP')))
+        self.base = os.path.realpath(tempfile.mkdtemp(prefix='c16_', dir=os.environ.get('VERIF_TMP')))
+        self.gen = 0
+        self.top = os.path.join(self.base, 't0')
+        self.nonce = 'q0'
         for rel, data in TREE_FILES.items():
             p = os.path.normpath(os.path.join(self.top, rel))
             os.makedirs(os.path.dirname(p), exist_ok=True)
@@ -210,10 +277,20 @@ class C16(Check):
 
     def _teardown(self):
         os.chdir(self.cwd0)
-        shutil.rmtree(self.top, ignore_errors=True)
+        shutil.rmtree(self.base, ignore_errors=True)
+
+    def _fresh(self):
+        """start of a call sequence: the whole tree moves to a new absolute location and `{N}` (a redundant
+        `name/..` prefix of relative root strings) changes, so nothing an earlier sequence may have left in the
+        process can be keyed by a path or a root string of this one: every sequence is self-contained and its
+        replay in a fresh process sees the same thing"""
+        self.gen += 1
+        new = os.path.join(self.base, f't{self.gen}')
+        os.rename(self.top, new)
+        self.top, self.nonce = new, f'q{self.gen}'
 
     def _sub(self, s):
-        return s.replace('{T}', self.top)
+        return s.replace('{T}', self.top).replace('{N}', self.nonce)
 
     def _static(self, cwd_rel, root, filename, method='GET', ims=False):
         """run the real static_file in working directory {T}/cwd_rel; returns (status, rec, body bytes|None, cwd)"""
@@ -294,9 +371,16 @@ class C16(Check):
         # (b) static_file on the real tree
         self._setup()
         try:
-            cases = [(c, r, f, 'GET', False) for (c, r) in ROOTS for f in NAMED]
-            cases += [self._case(rng) for _ in range(n * 2)]
-            for cwd_rel, root_t, fn_t, method, ims in cases:
+            cases = [((c, r, f, 'GET', False), None) for (c, r) in ROOTS for f in NAMED]
+            cases += [(self._case(rng), None) for _ in range(n * 2)]
+            # call sequences on this one process (warm, change directory / root, ask again)
+            for _ in range(n):
+                seq = gen_sequence(rng)
+                bump('sequences')
+                cases += [(c, seq[:i]) for i, c in enumerate(seq)]
+            for (cwd_rel, root_t, fn_t, method, ims), before in cases:
+                if not before:              # a single call, or the first call of a sequence
+                    self._fresh()
                 root, fn = self._sub(root_t), self._sub(fn_t)
                 status, rec, body, cwd = self._static(cwd_rel, root, fn, method, ims)
                 pr = rec.probes
@@ -308,8 +392,11 @@ class C16(Check):
                     bump('opened')
                 line = (f'static serve {hs(cwd)} {hs(root)} {hs(fn)} {e} {f} {a} '
                         f'{1 if method == "HEAD" else 0} {1 if ims else 0}')
-                out.append((line, f'{status} open={hsl(rec.opened)} probe={probe}',
-                            dict(kind='static', cwd=cwd_rel, root=root_t, filename=fn_t, method=method, ims=ims)))
+                sample = dict(kind='static', cwd=cwd_rel, root=root_t, filename=fn_t, method=method, ims=ims)
+                if before is not None:
+                    bump('static_in_sequence')
+                    sample['before'] = [list(b) for b in before]       # the calls made earlier in the same sequence
+                out.append((line, f'{status} open={hsl(rec.opened)} probe={probe}', sample))
         finally:
             self._teardown()
         return out
@@ -335,6 +422,11 @@ class C16(Check):
                 return 'opened-outside-root', f'open({q!r}) for name {fn!r} under root {root!r} (= {root_abs!r})'
         if body is not None and body.startswith(b'DECOY') and root_abs == self.top + '/root':
             return 'decoy-content', f'name {fn!r} under root {root!r} delivered a file from outside the root'
+        if body is not None and len(rec.opened) == 1 and os.path.isfile(rec.opened[0]):
+            with open(rec.opened[0], 'rb') as f:
+                if f.read() != body:
+                    return 'stale-content', (f'name {fn!r} under root {root!r} (= {root_abs!r}): the delivered bytes are '
+                                             f'not those of {rec.opened[0]!r}')
         if isinstance(status, str):
             return 'exception', f'static_file({fn!r}, {root!r}) raised {status[4:]}'
         if status in (200, 206, 304, 416):
@@ -351,6 +443,18 @@ class C16(Check):
             return 'status', f'name {fn!r} under root {root!r} answered {status}'
         return None
 
+    def _oracle_seq(self, calls):
+        """every call of a sequence is judged by itself, against the root as resolved when it is made;
+        returns None or (key, what, index of the failing call)"""
+        self._fresh()
+        for i, c in enumerate(calls):
+            bad = self._oracle(*c)
+            if bad:
+                if i:
+                    return bad[0] + ':after-other-calls', bad[1] + f' -- call {i + 1} of {[list(x) for x in calls[:i + 1]]}', i
+                return bad[0], bad[1], i
+        return None
+
     def search(self, rng, n, seeds):
         self._setup()
         findings, evals = [], 0
@@ -359,22 +463,39 @@ class C16(Check):
             cases = []
             for s in seeds:
                 if s.get('kind') == 'static':
-                    cases.append((s['cwd'], s['root'], s['filename'], s['method'], s['ims']))
-            cases += [(c, r, f, m, False) for (c, r) in ROOTS for f in NAMED for m in ('GET',)]
-            cases += [(c, r, f, 'HEAD', False) for (c, r) in ROOTS[:6] for f in NAMED]
-            cases += [self._case(rng) for _ in range(n)]
-            for c in cases:
-                evals += 1
+                    c = (s['cwd'], s['root'], s['filename'], s['method'], s['ims'])
+                    cases.append([tuple(b) for b in s.get('before') or []] + [c])
+            cases += [[(c, r, f, m, False)] for (c, r) in ROOTS for f in NAMED for m in ('GET',)]
+            cases += [[(c, r, f, 'HEAD', False)] for (c, r) in ROOTS[:6] for f in NAMED]
+            cases += [[self._case(rng)] for _ in range(n)]
+            # sequences: every collision family systematically (warm A, ask B, ask A again), then random ones
+            for root, cwds in SAME_ROOT_STRING:
+                for fn in SEQ_NAMES[:10]:
+                    for a in cwds[:3]:
+                        for b in cwds[:3]:
+                            if a != b:
+                                r = '{N}/../' + root
+                                cases.append([(a, r, fn, 'GET', False), (b, r, fn, 'GET', False), (a, r, fn, 'GET', False)])
+            for fn in SEQ_NAMES:
+                for ra in SEQ_ROOTS[:8]:
+                    for rb in SEQ_ROOTS[:8]:
+                        if ra != rb:
+                            cases.append([('', ra, fn, 'GET', False), ('', rb, fn, 'GET', False)])
+            cases += [gen_sequence(rng) for _ in range(n)]
+            for calls in cases:
+                evals += len(calls)
                 try:
-                    bad = self._oracle(*c)
+                    bad = self._oracle_seq(calls)
                 except Exception as e:  # noqa
-                    bad = ('oracle-exception', f'{type(e).__name__}: {e}')
+                    bad = ('oracle-exception', f'{type(e).__name__}: {e}', len(calls) - 1)
                 if bad:
+                    c = calls[bad[2]]
                     findings.append(Finding(f'C16:{bad[0]}', bad[1],
-                                            dict(cwd=c[0], root=c[1], filename=c[2], method=c[3], ims=c[4])))
+                                            dict(cwd=c[0], root=c[1], filename=c[2], method=c[3], ims=c[4],
+                                                 before=[list(x) for x in calls[:bad[2]]])))
         finally:
             self._teardown()
-        findings.sort(key=lambda f: len(f.replay['filename']) + len(f.replay['root']))   # smallest input per class
+        findings.sort(key=lambda f: (len(f.replay.get('before') or []), len(f.replay['filename']) + len(f.replay['root'])))
         return evals, findings
 
     def replay(self, data):
@@ -393,9 +514,15 @@ class C16(Check):
             return out
         self._setup()
         try:
+            earlier = []
+            for b in i.get('before') or []:          # the earlier calls of the sequence, in this process
+                st0, rec0, _, _ = self._static(b[0], self._sub(b[1]), self._sub(b[2]), b[3], b[4])
+                earlier.append(dict(call=list(b), status=st0, opened=rec0.opened))
+            if earlier:
+                out['earlier_calls'] = earlier
             status, rec, body, cwd = self._static(i['cwd'], self._sub(i['root']), self._sub(i['filename']),
                                                   i['method'], i['ims'])
-            out.update(tree_top=self.top, cwd=cwd, status=status, opened=rec.opened, stat=rec.touched,
+            out.update(tree_top=self.top, nonce=self.nonce, cwd=cwd, status=status, opened=rec.opened, stat=rec.touched,
                        probed=rec.probed_paths, body=None if body is None else body[:60].decode('latin1'),
                        oracle=self._oracle(i['cwd'], i['root'], i['filename'], i['method'], i['ims']))
             return out
